@@ -87,12 +87,14 @@ def w_grating(ctx, rng, i):
     apo = apo_name
     if apo_name == "custom":
         apo_name, apo = random_apodisation(rng)
-    fc = T.gv.f0
-    ctx.describe(fs=fs, n=n, n_pol=n_pol, kL=kL, vdneff=vdneff, F=F, apodisation=apo_name)
+    # the grating need not sit on the simulation carrier: a third of the cases centre it m bins away (still a grid point)
+    m_off = int(rng.integers(-n // 4, n // 4 + 1)) if i % 3 == 1 else 0
+    fc = T.gv.f0 + m_off * fs / n
+    ctx.describe(fs=fs, n=n, n_pol=n_pol, kL=kL, vdneff=vdneff, F=F, apodisation=apo_name, bragg_offset_bins=m_off)
     d0 = core.digest(x.signal)
     vis = float(rng.choice([1.0, 1.0, 0.5, 0.8, 0.25]))        # visibility: already contained in vdneff, so it must not matter on this route
     neff = float(rng.choice([1.45, 1.45, 1.447, 1.5]))
-    ctx.describe(fs=fs, n=n, n_pol=n_pol, kL=kL, vdneff=vdneff, F=F, apodisation=apo_name, v=vis, neff=neff)
+    ctx.describe(fs=fs, n=n, n_pol=n_pol, kL=kL, vdneff=vdneff, F=F, apodisation=apo_name, v=vis, neff=neff, bragg_offset_bins=m_off)
     out, H, cap = run_fbg(x, fc=fc, vdneff=vdneff, kL=kL, apodization=apo, F=F, v=vis, neff=neff)
     ctx.check("input_unchanged", core.digest(x.signal) == d0, "FBG modified its input")
     ok = isinstance(out, T.optical_signal) and out.signal.shape == x.signal.shape and out.n_pol == n_pol and H.shape == (n,)
@@ -108,8 +110,18 @@ def w_grating(ctx, rng, i):
     ctx.check("fbg.energy", np.all(e_out <= e_in * (1 + ODE) ** 2), f"reflected energy exceeds the input energy: {e_out} > {e_in}")
     if not cap:
         ctx.not_observed("fbg.peak")
+    if cap:
+        # the detuning handed to the solver, against its definition: delta(f) = 2 pi neff (f - f_Bragg) L / c with L = kL lambda_D / (pi vdneff)
+        f_abs = T.gv.f0 + np.fft.fftshift(np.fft.fftfreq(n, 1 / fs))
+        Lg = kL * (c_light / fc) / (np.pi * vdneff)
+        dref = 2 * np.pi * neff * (f_abs - fc) / c_light * Lg
+        dgot = np.ravel(np.asarray(cap["delta"], float))
+        ctx.check("fbg.detuning", dgot.shape == dref.shape and np.max(np.abs(dgot - dref)) <= 1e-6 * max(np.max(np.abs(dref)), 1.0),
+                  f"detuning vector differs from 2 pi neff (f - f_Bragg) L / c (max dev {np.max(np.abs(dgot - dref)) if dgot.shape == dref.shape else 'shape'} of {np.max(np.abs(dref)):.3g}; Bragg frequency {m_off} bins from the carrier, n_pol={n_pol})")
+    if not cap:
+        pass
     elif not chirped:
-        ic = n // 2      # w = 0  <=>  optical frequency f0 = fc: the Bragg frequency
+        ic = n // 2 + m_off      # optical frequency fc: the Bragg frequency
         apo_f = cap["apo"]
         integral = 1.0 if apo_f is None else quad(lambda z: float(apo_f(z)), -0.5, 0.5, limit=200)[0]
         if apo_name in NAMED_INTEGRALS:
